@@ -195,7 +195,7 @@ def run_property(pid, tier='quick', update_ledger=False, verbose=False):
         for a in r['lib']:
             assumptions.add('library contract (assumed): ' + a)
         solver_ms += r['smt']['z3_ms'] + r['smt']['cvc5_ms']
-        if r['paths'] == 0 or (r['normal'] + r['exceptional'] == 0 and not r['unsupported']):
+        if (r['paths'] == 0 and not r['unsupported']) or (r['normal'] + r['exceptional'] == 0 and not r['unsupported']):
             crashed.append(dict(func=r['func'], error='vacuous: no path completed'))
         for ob in r['obligations']:
             obligations[ob['oid']] = ob
